@@ -33,10 +33,10 @@ class C12(Cfg):
     level_text = ("Theorems (Lean 4, any rooms, database, caller, date): for the intended behaviour the local right check of a row change and the peer's "
                   "validate_node on the row produced give the same verdict — for a new row, a row of the same author, a foreign row, and a row that changes "
                   "room (both rooms are checked on both sides) — whenever the peer holds the same room definitions and the same previous version; hence a "
-                  "mutation accepted locally has every row accepted by such a peer and a row refused by the peers makes the local mutation refuse. For the code "
-                  "as it is the statement is FALSE in the direction 'accepted locally, refused by every peer' for the three local defects (#1 nested sub-entity, "
-                  "#2 departing room, #3 re-signed source row): decide-checked witnesses and real-code replays. The row-level agreement of the code as it is holds "
-                  "under the C01 guard. The model pair is tied to /repo by the run.")
+                  "mutation accepted locally has every row accepted by such a peer and a row refused by the peers makes the local mutation refuse. The statement "
+                  "was FALSE in the direction 'accepted locally, refused by every peer' for three local defects (#1 nested sub-entity, #2 departing room, #3a re-signed source row: "
+                  "decide-checked witnesses; fixed in /repo since, replays kept as regression cases) and still is for #3b (own reference deleted at a foreign row). The row-level "
+                  "agreement holds for any switch values when the row does not change room. The model pair is tied to /repo by the run.")
     level_note = ("Trusted: Lean kernel; models LocalWrite.lean (this engine) and Ingest.lean (engine `ingest`, C02), each tied by its own correspondence run; "
                   "here additionally the pair is run together. Not covered: values refused by the data model on one side only (explicit null, Json scalars — DESIGN #14, "
                   "engine `lang`), the size limit (same predicate on both sides, not exercised), references and deletion records whose acceptance rule differs "
